@@ -427,6 +427,25 @@ func viewClone(c Case) error {
 			return fmt.Errorf("the polygon's new coordinates changed at ordinate %d when its old view and the view's clone were written to", i)
 		}
 	}
+	// "cloning any geometry": a value whose flat array does not end on a whole coordinate
+	// (the flat constructors take what they are given) is cloned as it is, every ordinate
+	if s > 1 {
+		k := 1 + n%(s-1) // 1 .. stride-1 ordinates too many
+		part := mk(9000)[:(n-1)*s+k]
+		end := len(part)
+		odd := []geom.T{
+			geom.NewLineStringFlat(l, append([]float64(nil), part...)),
+			geom.NewPolygonFlat(l, append([]float64(nil), part...), []int{end}),
+			geom.NewMultiLineStringFlat(l, append([]float64(nil), part...), []int{s, end}),
+			geom.NewMultiPolygonFlat(l, append([]float64(nil), part...), [][]int{{s}, {end}}),
+		}
+		for _, o := range odd {
+			cl := clone(o)
+			if a, b := snap(o).String(), snap(cl).String(); a != b {
+				return fmt.Errorf("clone of a %T whose flat array holds %d ordinates at stride %d differs from its source:\n clone %s\n src   %s", o, end, s, b, a)
+			}
+		}
+	}
 	return nil
 }
 
